@@ -7,8 +7,10 @@ on scratch files under /var/tmp/blocv-c18f-* (removed at the end). Every case is
 the file / database is read back by an independent reader (Python `open(..,'rb')`, Python's own `sqlite3`).
 
 Compared textually: the per-call results (`I:3,S:616263;B:1;E;…`) and the final content (`final=` / `db=`), where the
-implementation side's `final=` / `db=` comes from the independent reader. A model answer `H:<hazard>` is accepted only
-with kf=<listed known finding> and when the real call crashed / let a foreign C++ exception escape.
+implementation side's `final=` / `db=` comes from the independent reader. The models have no hazard answer any more (the read
+preallocation, the empty-bytes write, the dangling statement after close() and the SQLITE_STATIC bind are repaired): a crash
+of the probe or a foreign C++ exception is a violation. (A model answer `H:<hazard>` would be accepted only with
+kf=<listed KNOWN finding>; none is left.) The utf8 plugin's `at` range check is driven here as well (family u8.plugin_at).
 
 `run_half(check)` is what `C18.run` calls; the class `C18F` runs this half alone (`./check C18F`)."""
 import json
@@ -25,8 +27,6 @@ from .. import build, build_vmod, run
 from ..core import Case, Check, log, parse_model
 
 I64MAX, I64MIN = 2 ** 63 - 1, -(2 ** 63)
-MEMLIMIT = 2 ** 46          # any allocation the tests make below 2^32 succeeds, anything >= 2^62 cannot: nothing in between is tested
-FINDINGS_FILE = "known_findings_c18f.json"
 
 SIZES = {
     "quick": {"rand_file": 500, "rand_sql": 300, "big_reads": 1, "ln_rand": 60, "vals_rand": 40},
@@ -126,7 +126,7 @@ class FileCase:
     # -- lines
     def model_line(self, maxoff):
         init = "-" if self.init is None else dot(self.init)
-        return "fil %d %d %s %s %s" % (maxoff, MEMLIMIT, hx(self.path.encode()), init, " ".join(self.toks))
+        return "fil %d %s %s %s" % (maxoff, hx(self.path.encode()), init, " ".join(self.toks))
 
     def impl_line(self):
         ops = ["new 0 t"] + ["set 0 %s %s" % (hx(n.encode()), v) for n, v in self.sets]
@@ -194,6 +194,47 @@ def mask_unmodelled(impl, model):
     if len(a) != len(b):
         return impl, model
     return ";".join("U" if y == "U" and not x.startswith("?") else x for x, y in zip(a, b)) + " final=" + ifin, model
+
+
+# ------------------------------------------------------------------------------------------------ utf8 plugin: at()
+class U8AtCase:
+    """`U = utf8(S); U.at(P)` through the REAL utf8 plugin (the range check of plugin_utf8.cpp case At), against the
+    driver command `u8 at <hex> <pos>` (Utf8.pluginAt). One case = one string, several positions."""
+
+    def __init__(self, text, positions):
+        self.text, self.positions = text, positions
+        self.kind = "u8.plugin_at"
+        self.toks = ["at:%s" % ("null" if p is None else p) for p in positions]
+
+    def model_lines(self):
+        return ["u8 at %s %s" % (dot(self.text), "null" if p is None else p) for p in self.positions]
+
+    def impl_line(self):
+        ops = ["new 0 t", "set 0 %s S:%s" % (hx(b"S"), hx(self.text))]
+        for i, p in enumerate(self.positions):
+            ops.append("set 0 %s %s" % (hx(("P%d" % i).encode()), "N:i0" if p is None else "I:%d" % p))
+        ops.append("prog 0 " + hx(b"import utf8; U = utf8(S);"))
+        for i in range(len(self.positions)):
+            ops.append("prog 0 " + hx(("return U.at(P%d);" % i).encode()))
+        return "|".join(ops)
+
+    def nsetup(self):
+        return 2 + len(self.positions) + 1
+
+
+def u8_impl_answers(uc, iraw):
+    """per position: `ok I:<v>` | `rerr invalid` | `rerr range` (the vocabulary of the driver's `u8 at`)"""
+    if iraw.startswith("crash ") or iraw.endswith("diverges"):
+        return None
+    parts = iraw.split("|")
+    if any(p.startswith("foreign-exception") or p.startswith("uncaught-") for p in parts):
+        return None
+    if any(p != "ok" and p != "ok-" for p in parts[:uc.nsetup()]):
+        return None
+    out = []
+    for r in parts[uc.nsetup():]:
+        out.append("rerr invalid" if r == "rerr 2" else "rerr range" if r == "rerr 22" else r)
+    return out
 
 
 # ------------------------------------------------------------------------------------------------ sqlite cases
@@ -435,7 +476,7 @@ class Half:
                     fc = self.fcase("file.roundtrip", None)
                     fc.ctor("@", b"w")
                     for ch in (self.chunks(data) if size else [b""]):
-                        fc.write(ch, r.choice("SB") if ch else "S")
+                        fc.write(ch, r.choice("SB"))
                     fc.close()
                     fc.open("@", b"r")
                     fc.read(cnt, kind)
@@ -541,18 +582,27 @@ class Half:
                 fc.read(n, kind)
                 fc.simple("p")
                 out.append(fc)
-        # the preallocation hazard: one unguarded witness each
-        for n, kind in ((2 ** 62, "S"), (I64MAX, "S"), (I64MAX, "B")):
-            fc = self.fcase("file.hazard", b"abc")
-            fc.open("@", b"r")
-            fc.read(n, kind)
-            out.append(fc)
-        for m in (b"w", b"r+", b"a"):
-            fc = self.fcase("file.hazard", b"abc")
+        # counts no allocator can serve (the request is not preallocated any more): the data that is there comes back
+        for init in (b"abc", b"", self.rbytes(4096), self.rbytes(10000)):
+            for n, kind in ((2 ** 62, "S"), (2 ** 62 - 1, "S"), (I64MAX, "S"), (I64MAX, "B"), (2 ** 40, "B"), (2 ** 47, "S")):
+                fc = self.fcase("file.hugecount", init)
+                fc.open("@", b"r")
+                fc.read(n, kind)
+                fc.simple("p")
+                fc.read(n, kind)
+                out.append(fc)
+        # an empty value (bytes without buffer, empty string) written: 0, nothing happens
+        for m in (b"w", b"r+", b"a", b"a+"):
+            fc = self.fcase("file.emptywrite", b"abc")
             fc.open("@", m)
             fc.write(b"", "S")
             fc.simple("p")
             fc.write(b"", "B")
+            fc.simple("p")
+            fc.write(b"xy", "B")
+            fc.write(b"", "B")
+            fc.simple("p")
+            fc.close()
             out.append(fc)
         # F5: readln
         lines = [b"ab\ncd\n", b"ab\r\n\ncd", b"ab\0cd\n\0\nxy", b"\0", b"\0\0a", b"\n", b"", b"\xff\xfe\n\xff", b"x" * 4095 + b"\n", b"x" * 4096 + b"\n",
@@ -620,7 +670,7 @@ class Half:
                 elif last == "r" and r.random() < 0.85:
                     fc.seek(r.choice(["cur", "cur", "end"]), 0)
                 last = "w"
-                fc.write(d if r.random() < 0.97 else None, r.choice("SB") if d else "S")
+                fc.write(d if r.random() < 0.97 else None, r.choice("SB"))
             elif k < 0.58:
                 if last == "w" and r.random() < 0.85:
                     if r.random() < 0.5:
@@ -739,30 +789,34 @@ class Half:
         sc.op("bi", ["I:1"])
         sc.ops("ex fe hd fi op io cl cl io de")
         out.append(sc)
-        # the dangling statement after close(): unguarded witnesses
+        # close() with a live statement (the former dangling-statement witnesses): the statement is forgotten
         for tail in ("de", "op fi", "op pi", "op ps", "op pb", "op cl", "op ex", "op hd", "op fe", "op op"):
             for pre in ("ps ex", "pi", "ps"):
-                sc = self.scase("sql.dangling")
+                sc = self.scase("sql.closestmt")
                 sc.ops("op cr")
                 sc.op("in", ["I:1"])
                 sc.ops(pre + " cl " + tail)
                 sc.ops("cl de")
                 out.append(sc)
-        sc = self.scase("sql.dangling")
+        sc = self.scase("sql.closestmt")
         sc.ops("op cr pi cl op")
         sc.op("bi", ["I:1"])
         sc.ops("de")
         out.append(sc)
-        # bind() keeps pointers into its argument tuple (SQLITE_STATIC): a temporary tuple, then execute
-        for v in ("S:616263", "R:00ff", "S:" + "78" * 5000, "I:5", "D:3ff8000000000000", "S:", "N:s0"):
-            for mid in ("", "in=I:1", "qp=I:1", "bt2"):
+        # bind() of a TEMPORARY tuple, other statements with temporaries, then execute (the former SQLITE_STATIC witnesses)
+        for v in ("S:616263", "R:00ff", "S:" + "78" * 5000, "S:610062", "I:5", "D:3ff8000000000000", "S:", "N:s0"):
+            for mid in ("", "in=I:1", "qp=I:1", "bt2", "fe", "in=S:7a7a7a7a7a7a7a7a7a7a7a7a7a7a7a7a7a7a7a7a7a7a"):
                 sc = self.scase("sql.bindtemp")
                 sc.ops("op cr pi")
                 sc.op("bt", [v])
                 if mid == "bt2":
                     sc.op("bt", ["O"])
+                elif mid == "fe":
+                    sc.ops("fe hd")
                 elif mid:
                     sc.op(mid.split("=")[0], [mid.split("=")[1]])
+                sc.ops("ex")
+                sc.op("in", ["S:71717171717171717171717171717171717171717171"])
                 sc.ops("ex fi qa cl de")
                 out.append(sc)
         for _ in range(self.sz["rand_sql"]):
@@ -787,7 +841,7 @@ class Half:
             elif k < 0.36:
                 sc.ops("ps"); active = False
             elif k < 0.50:
-                sc.op("bi", [r.choice(small)] + ([r.choice(small)] if r.random() < 0.1 else [])); active = False
+                sc.op(r.choice(["bi", "bt"]), [r.choice(small)] + ([r.choice(small)] if r.random() < 0.1 else [])); active = False
             elif k < 0.64:
                 sc.ops("ex"); active = "ps" in sc.toks      # conservative: a select may now be on a row
             elif k < 0.80:
@@ -807,6 +861,18 @@ class Half:
         sc.ops("qa")
         sc.ops(r.choice(["fi cl de", "fi de", "cl de", "de"]))
         return sc
+
+    def gen_u8at(self):
+        texts = [b"", b"a", b"abc", "Aé€\U0001f600".encode(), b"a\0b", b"\xff\xfe", b"x" * 300, "é".encode() * 50]
+        out = []
+        for t in texts:
+            n = len(t.decode("utf-8", "ignore").replace("\0", ""))
+            pos = []
+            for v in (-1, 0, 1, 2, 3, 4, n - 1, n, n + 1, 255, 256, 10000000, 2 ** 31, 2 ** 32, 2 ** 32 + 1, 2 ** 63 - 1, -(2 ** 63), -(2 ** 32), -2, None):
+                if v not in pos:
+                    pos.append(v)
+            out.append(U8AtCase(t, pos))
+        return out
 
     # ---------------------------------------------------------------- running
     def find_maxoff(self):
@@ -842,9 +908,9 @@ class Half:
         except build.BuildError as e:
             chk.broken_ties.append("build: %s: %s" % (e.what, e.output[-800:]))
             return
-        mods = [p for p in build_vmod.module_dirs(d) if os.path.basename(p) in ("file", "sqlite3")]
-        if len(mods) != 2:
-            chk.broken_ties.append("build: the file / sqlite3 modules were not built in %s" % d)
+        mods = [p for p in build_vmod.module_dirs(d) if os.path.basename(p) in ("file", "sqlite3", "utf8")]
+        if len(mods) != 3:
+            chk.broken_ties.append("build: the file / sqlite3 / utf8 modules were not built in %s" % d)
             return
         env = {"LD_LIBRARY_PATH": ":".join(mods + [os.environ.get("LD_LIBRARY_PATH", "")]).rstrip(":")}
         self.dir = tempfile.mkdtemp(prefix="blocv-c18f-", dir="/var/tmp")
@@ -866,6 +932,13 @@ class Half:
                 c = Case("q%d" % i, sc.model_line(), sc.impl_line(), {"kind": sc.kind})
                 self.objs[c.cid] = sc
                 cases.append(c)
+            ucs = self.gen_u8at()
+            umodel = []           # extra driver lines: one per position
+            for i, uc in enumerate(ucs):
+                c = Case("u%d" % i, "", uc.impl_line(), {"kind": uc.kind})
+                self.objs[c.cid] = uc
+                cases.append(c)
+                umodel += ["u%d.%d %s" % (i, j, ln) for j, ln in enumerate(uc.model_lines())]
             for c in cases:
                 self.kinds[c.meta["kind"]] = self.kinds.get(c.meta["kind"], 0) + 1
             log("C18F %s: %d cases: %s" % (chk.tier, len(cases), " ".join("%s=%d" % kv for kv in sorted(self.kinds.items()))))
@@ -877,7 +950,7 @@ class Half:
             with ThreadPoolExecutor(max_workers=2) as ex:
                 fi = ex.submit(timed, run.run_harness, hbin, ["%s %s" % (c.cid, c.impl_line) for c in cases], timeout_s=60, workers=16,
                                env_extra=env)
-                fm = ex.submit(timed, run_driver_bigstack, ["%s %s" % (c.cid, c.model_line) for c in cases], workers=8)
+                fm = ex.submit(timed, run_driver_bigstack, ["%s %s" % (c.cid, c.model_line) for c in cases if c.model_line] + umodel, workers=8)
                 impl, chk.stats["c18f_impl_s"] = fi.result()
                 model, chk.stats["c18f_model_s"] = fm.result()
             chk.stats["c18f_run_s"] = round(time.time() - t, 1)
@@ -912,9 +985,34 @@ class Half:
             if iraw is None:
                 chk.record_violation("harness lost case", c, "?", {})
                 continue
+            if isinstance(self.objs[c.cid], U8AtCase):
+                self.judge_u8(c, iraw, model, impl.get(c.cid + "#stderr", ""))
+                continue
             ians = self.canon_impl(c, iraw)
             m = parse_model(model.get(c.cid, ""))
             self.judge(c, ians, m, impl.get(c.cid + "#stderr", ""))
+
+    def judge_u8(self, c, iraw, model, stderr):
+        chk = self.chk
+        uc = self.objs[c.cid]
+        chk.distinct.add((c.cid, ""))
+        d = chk.stats.setdefault("impl_outcomes", {})
+        ans = u8_impl_answers(uc, iraw)
+        cls = uc.kind + (" answered" if ans is not None else " " + iraw[:28])
+        d[cls] = d.get(cls, 0) + 1
+        meta = {"kind": uc.kind, "ops": "utf8(%s) %s" % (hx(uc.text)[:80], " ".join(uc.toks)), "full_model_line": "|".join(uc.model_lines()),
+                "full_impl_line": c.impl_line}
+        short = Case(c.cid, "utf8 plugin: " + meta["ops"][:400], "", meta)
+        mans = [parse_model(model.get("%s.%d" % (c.cid, j), "")).get("model") for j in range(len(uc.positions))]
+        if ans is None:
+            chk.record_violation("utf8 at() through the real plugin crashed or failed (the model has no hazard answer)", short, iraw[:300],
+                                 {"model": ";".join(str(x) for x in mans)}, stderr)
+            return
+        for j, (a, b) in enumerate(zip(ans + ["?missing"] * (len(mans) - len(ans)), mans)):
+            if a != b:
+                chk.record_violation("utf8 at() of the real plugin differs from the model", short,
+                                     "position %s: impl=%s model=%s" % (uc.toks[j], a, b), {"model": ";".join(str(x) for x in mans)}, stderr)
+                return
 
     def judge(self, c, ians, m, stderr):
         chk = self.chk
@@ -989,13 +1087,8 @@ class Half:
 
 
 def load_findings(check):
-    """findings of this half, until they are merged into known_findings.json"""
-    p = os.path.join(build.VERIF, FINDINGS_FILE)
-    if os.path.exists(p):
-        have = set(f["id"] for f in check.findings)
-        for f in json.load(open(p)).get("findings", []):
-            if f.get("property") == check.pid and f.get("id") not in have:
-                check.findings.append(f)
+    """kept for callers of the first version: known_findings.json is authoritative, nothing else is read"""
+    return None
 
 
 def run_half(check):
@@ -1051,12 +1144,16 @@ RULE = ("file: every history below is run on the real module (ASan+UBSan build, 
         "file, 3 bytes, 5000 bytes} through open() and through the constructor; seek-beyond-end writes (sparse), append modes; null / "
         "negative / INT64 extreme arguments of every method, calls on a closed or default-constructed object; readln on data with NUL, "
         "CR, LF and 4095/4096/4097-character lines; dirname/basename on all strings of length <= 4 over {/ a .}; random histories of 4-14 "
-        "calls; three unguarded witnesses of the read preallocation hazard. sqlite3: every value class (boundary integers, decimal bit "
+        "calls; read counts no allocator can serve (2^40, 2^47, 2^62-1, 2^62, INT64_MAX: the data that is there comes back) on files of "
+        "0 / 3 / 4096 / 10000 bytes; writes of empty strings and of empty bytes values without buffer. sqlite3: every value class (boundary integers, decimal bit "
         "patterns incl. -0, subnormals, infinities, NaNs; strings empty / UTF-8 / invalid UTF-8 / with NUL / 5000 bytes; bytes empty / "
         "with NUL / all 256 values / 10000 bytes; booleans; typed nulls; an object) through exec(sql, tuple), prepare+bind+execute and "
         "query(sql, tuple), read back through query() and prepare+execute+fetch+header, and by Python's sqlite3 (value and typeof) on the "
         "same database file; multi-row tables of mixed types; null arguments; calls without connection / statement; random histories of "
-        "the statement state machine; unguarded witnesses of the dangling statement left by close().")
+        "the statement state machine incl. close() with a live statement followed by the destructor / reopen + every statement call "
+        "(31 histories), and bind() of a temporary tuple followed by statements that release it and by execute() (48 histories); "
+        "utf8: at(pos) through the real plugin on 8 strings x 20 positions {-1,0..4,n-1,n,n+1,255,256,10^7,2^31,2^32,2^32+1,INT64_MAX,"
+        "INT64_MIN,-2^32,-2,null}.")
 
 
 class C18F(Check):
